@@ -883,8 +883,8 @@ ASSUMPTIONS = ['glibc malloc/free behave; the ledger is the counting allocator b
                'element type parametric model (alpha = Int in the driver): int, double (multiples of 0.5) and the counting type carry integer payloads',
                'small_vector is checked with its STL-free parts (utl::either / utl::static_vector / utl::vector) passed explicitly as template arguments, DIM = 4, T = int/double (layouts where the union bytes of a value-initialised static_vector read as a null vector)',
                'utl::tuple / tuplev2: homogeneous 3-tuples and heterogeneous tuples <int, double, counting type, ...> of arity 1..12 accessed through utl::get<I>; they share the array model (payload-parametric: the component types differ only on the C++ side); converting construction tuple<Us...> -> tuple<Ts...> is not part of the alphabet']
-PARTIAL = ['small_vector: conservation of blocks, no dropped block, no event and no leak are proved for every history (smallVector_ledger_account, smallVector_no_leak); a set-level statement that no individual block is freed twice is proved for utl::vector (no_double_free) but for small_vector only in counting form (allocs = frees + live heap-mode objects excludes a surplus of frees) — the correspondence run (counting allocator: bad frees, ASan flavour) covers the rest']
+PARTIAL = []
 MANIFEST = dict(
-    text='Proof: 24 Lean theorems over all operation histories (List Op, any number of object slots, induction done once in a generic simulation / invariant lemma): utl::vector refines std::vector on EVERY history (sized construction, growing resize, push_back(x[i]) included) and its allocation ledger shows no leak, no double free, no out-of-bounds access, self-assignment is a no-op; static_vector refines the capacity-bounded list with refusal on every history; array refines std::array and tuple / tuplev2 of every arity refine the fixed-length list with independent components (tuple_refines, tuple_set_component); small_vector refines std::vector on EVERY history across the static/dynamic switch (push_back(x[i]) included), never touches the heap while every object stays static, never leaks (allocs = frees once all objects are destroyed), never drops a block or records an out-of-bounds / use-after-free / lifetime event, and the static-to-heap switch costs exactly 5 (3) allocations all but one of which are freed; maybe/either refine Option/Sum for trivial and non-trivial T and manage the lifetime of a non-trivial T as std::optional / std::variant do on every history (either_lifetime_ok: no lifetime error, constructions = destructions at the end); copies are independent. Tied to the real headers on every run by replaying ~3.7e5 (quick) / ~2.1e6 (thorough) histories against the real containers with a counting allocator and a counting element type, three-way IMPL / MODEL / Python-list ORACLE, plus an ASan+UBSan flavour.',
+    text='Proof: 26 Lean theorems over all operation histories (List Op, any number of object slots, induction done once in a generic simulation / invariant lemma): utl::vector refines std::vector on EVERY history (sized construction, growing resize, push_back(x[i]) included) and its allocation ledger shows no leak, no double free, no out-of-bounds access, self-assignment is a no-op; static_vector refines the capacity-bounded list with refusal on every history; array refines std::array and tuple / tuplev2 of every arity refine the fixed-length list with independent components (tuple_refines, tuple_set_component); small_vector refines std::vector on EVERY history across the static/dynamic switch (push_back(x[i]) included), never touches the heap while every object stays static, never leaks (allocs = frees once all objects are destroyed; the freed blocks are exactly the blocks handed out), never frees a block twice or shares one between live objects, never drops a block or records an out-of-bounds / use-after-free / lifetime event, and the static-to-heap switch costs exactly 5 (3) allocations all but one of which are freed; maybe/either refine Option/Sum for trivial and non-trivial T and manage the lifetime of a non-trivial T as std::optional / std::variant do on every history (either_lifetime_ok: no lifetime error, constructions = destructions at the end); copies are independent. Tied to the real headers on every run by replaying ~3.7e5 (quick) / ~2.1e6 (thorough) histories against the real containers with a counting allocator and a counting element type, three-way IMPL / MODEL / Python-list ORACLE, plus an ASan+UBSan flavour.',
     note='Lean kernel + propext/Classical.choice/Quot.sound; model hand-written and following the repaired code (fix: commits C19-vector-value-init, -zero-sized-free, -alias-push, C19-static-vector-oversize-ctor, -grow-init, C19-either-maybe-lifetime, C19-small-vector-alias-push); fidelity rests on the correspondence run (which also compares capacity, stale cells and malloc/free counters after every step); no open known finding; partial statements are listed in PARTIAL',
     technique='Lean 4 simulation and invariant proofs over List Op histories + differential history replay with allocator / lifetime ledgers')
